@@ -87,4 +87,37 @@ def _forward_body(body):
     for blk in body["blocks"]:
         walk(blk["stmts"])
         walk(blk["term"])
+    # a forwarded pointer nobody mentions any more: its borrow statement goes too (a leftover `&mut self.field`
+    # would read as "this function borrows the field mutably" although every access was rewritten to the place)
+    used = set()
+    def note(o):
+        if isinstance(o, dict):
+            if "l" in o and "p" in o and isinstance(o["p"], list):
+                used.add(o["l"])
+                for el in o["p"]:
+                    if isinstance(el, dict) and "index" in el:
+                        used.add(el["index"])
+                return
+            for k, v in o.items():
+                if k not in ("span", "fn"):
+                    note(v)
+        elif isinstance(o, list):
+            for v in o:
+                note(v)
+    for _round in range(6):
+        used = set()
+        for blk in body["blocks"]:
+            for st in blk["stmts"]:
+                if st.get("s") == "assign" and not st["pl"]["p"] and st["pl"]["l"] in target:
+                    note(st["rv"])
+                else:
+                    note(st)
+            note(blk["term"])
+        dead = 0
+        for blk in body["blocks"]:
+            keep = [st for st in blk["stmts"] if not (st.get("s") == "assign" and not st["pl"]["p"] and st["pl"]["l"] in target and st["pl"]["l"] not in used)]
+            dead += len(blk["stmts"]) - len(keep)
+            blk["stmts"] = keep
+        if not dead:
+            break
     return n
